@@ -200,6 +200,94 @@ theorem length_reachable (h : Nat → Nat) (ops : List Op) (n : Nat) :
       (run h (Table.init n) ops).bad = false :=
   ⟨(length_eq_card h _ (inv_reachable h ops _ (inv_init h n)).1).1, (inv_reachable h ops _ (inv_init h n)).1.ok⟩
 
+/-! ### constructors return a table without a prototype -/
+
+theorem proto_remove (h : Nat → Nat) (t : Table) (k : Nat) : (t.remove h k).1.proto = t.proto := by
+  unfold Table.remove
+  cases hit t.data (dictFind h t.data k) <;> rfl
+
+theorem proto_putKey (h : Nat → Nat) (t : Table) (k : Nat) (v : Val) : (t.putKey h k v).proto = t.proto := by
+  unfold Table.putKey
+  by_cases hv : v = vNil
+  · simp only [hv, if_true]; exact proto_remove h t k
+  · simp only [hv, if_false]
+    cases hit t.data (dictFind h t.data k) with
+    | some i => rfl
+    | none =>
+      simp only []
+      unfold Table.insertNew Table.insertAt
+      have h1 : (t.maybeRehash h (dictFind h t.data k)).proto = t.proto := by
+        unfold Table.maybeRehash
+        by_cases c : ((dictFind h t.data k).isNone || rehashNeeded t.count t.deleted t.capacity) = true
+        · rw [if_pos c]; rfl
+        · rw [if_neg c]
+      cases dictFind h (t.maybeRehash h (dictFind h t.data k)).data k <;> simp [h1]
+
+theorem proto_put (h : Nat → Nat) (t : Table) (k : KArg) (v : Val) : (t.put h k v).proto = t.proto := by
+  cases k with
+  | nil => rfl
+  | nan => rfl
+  | key k => exact proto_putKey h t k v
+
+theorem proto_mergekv (h : Nat → Nat) (kvs : List Slot) (t : Table) : (t.mergekv h kvs).proto = t.proto := by
+  induction kvs generalizing t with
+  | nil => rfl
+  | cons kv rest ih =>
+    have e : t.mergekv h (kv :: rest) = (match kv.key with | some k => t.putKey h k kv.val | none => t).mergekv h rest := rfl
+    rw [e, ih]
+    cases kv.key with
+    | none => rfl
+    | some k => exact proto_putKey h t k kv.val
+
+/-- only `table/setproto` changes the prototype link: `put`, `remove`, `clear`, `merge-into` keep it -/
+theorem proto_step (h : Nat → Nat) (t : Table) (op : Op) (hs : ∀ p, op ≠ .setproto p) : (step h t op).proto = t.proto := by
+  cases op with
+  | put k v => exact proto_put h t k v
+  | remove k => exact proto_remove h t k
+  | clear => rfl
+  | merge kvs => exact proto_mergekv h kvs t
+  | setproto p => exact absurd rfl (hs p)
+
+theorem mergeNew_eq_run (h : Nat → Nat) (colls : List (List Slot)) :
+    mergeNew h colls = run h (Table.init 0) (colls.map Op.merge) := by
+  unfold mergeNew run
+  rw [List.foldl_map]
+  rfl
+
+/-- **boot.janet `merge` returns a table without a prototype**, whatever prototypes its arguments carry (the model
+of `merge` is the shape the translator asserts on boot.janet: a fresh `@{}` filled by `put`) ... -/
+theorem merge_proto_none (h : Nat → Nat) (colls : List (List Slot)) : (mergeNew h colls).proto = none := by
+  have : ∀ (l : List (List Slot)) (t : Table), (l.foldl (fun t kvs => t.mergekv h kvs) t).proto = t.proto := by
+    intro l
+    induction l with
+    | nil => intro t; rfl
+    | cons kvs rest ih => intro t; simp only [List.foldl_cons]; rw [ih, proto_mergekv]
+  unfold mergeNew
+  rw [this]; rfl
+
+/-- ... and is, as a map, the replay of its arguments' entries from the empty map (invariant included) -/
+theorem merge_new_spec (h : Nat → Nat) (colls : List (List Slot)) :
+    Inv h (mergeNew h colls) ∧ abs h (mergeNew h colls) = (colls.map Op.merge).foldl specStep (fun _ => vNil) := by
+  rw [mergeNew_eq_run]
+  have := inv_reachable h (colls.map Op.merge) (Table.init 0) (inv_init h 0)
+  have e : abs h (Table.init 0) = fun _ => vNil := funext (fun k => abs_init h 0 k)
+  rw [e] at this
+  exact this
+
+/-- `zipcoll`, `from-pairs`, `tabseq`: likewise a fresh table filled by `put`, hence no prototype -/
+theorem fromPuts_proto_none (h : Nat → Nat) (kvs : List (KArg × Val)) : (fromPuts h kvs).proto = none := by
+  have : ∀ (l : List (KArg × Val)) (t : Table), (l.foldl (fun t kv => t.put h kv.1 kv.2) t).proto = t.proto := by
+    intro l
+    induction l with
+    | nil => intro t; rfl
+    | cons kv rest ih => intro t; simp only [List.foldl_cons]; rw [ih, proto_put]
+  unfold fromPuts
+  rw [this]; rfl
+
+/-- `table/proto-flatten` walks a bounded number of prototypes (the generated shape of its loop): it terminates on a
+cyclic prototype chain -/
+theorem flatten_terminates : flattenBounded = true := by decide
+
 /-! ### capacity is a power of two -/
 
 def IsPow2 (n : Nat) : Prop := ∃ e, n = 2 ^ e
@@ -551,6 +639,35 @@ theorem arr_inv_reachable (ops : List AOp) (a : Arr) (xs : List Val) (h : a.Abs 
   | cons op rest ih =>
     obtain ⟨zs, hz⟩ := astep_abs a xs h op
     exact ih _ zs hz
+
+/-- `array/ensure` with well-typed 32-bit arguments raises an error or succeeds — it never ends the process with
+"janet out of memory" (goes through only for sources that validate `growth ≥ 1`) -/
+theorem aensure_never_exits (a : Arr) (xs : List Val) (h : a.Abs xs) (c g : Arg)
+    (hc : ∀ n, c = .int n → n ≤ i32max) : (a.cfunEnsure c g).2 ≠ .oom := by
+  unfold Arr.cfunEnsure
+  cases hcg : getInteger c with
+  | none => simp
+  | some cn =>
+    cases hgg : getInteger g with
+    | none => simp
+    | some gn =>
+      simp only []
+      have hcn : cn ≤ i32max := by
+        cases c with
+        | int m => simp [getInteger] at hcg; rw [← hcg]; exact hc m rfl
+        | nil => cases hcg
+        | bad => cases hcg
+      by_cases c1 : cn < 1
+      · rw [if_pos c1]; simp
+      · rw [if_neg c1]
+        simp only [ensureChecksGrowth, Bool.true_and]
+        by_cases c2 : gn < 1
+        · simp [c2]
+        · have hd : decide (gn < 1) = false := by simp [c2]
+          rw [hd]
+          simp only [Bool.false_eq_true, if_false]
+          obtain ⟨a', he, _⟩ := Arr.ensure_abs h cn gn (by omega) (by omega) hcn
+          rw [he]; simp
 
 /-- non-vacuity: a concrete array state is represented -/
 example : (Arr.new 2).Abs [] := Arr.new_abs 2 (by decide)
